@@ -369,7 +369,7 @@ def run(ctx):
 
     ctx.hyp(cases, max_examples=ctx.n(1500, 6000))
 
-    piece = st.one_of(st.sampled_from(IDENTS), st.sampled_from(IDENTS), st.just("..."), st.sampled_from(["3", "a-b", "T,", "S.T", "..", "....", "*", "?T", "T=", "(T)", "1T", "é", "T S"]),
+    piece = st.one_of(st.sampled_from(IDENTS), st.sampled_from(IDENTS), st.just("..."), st.sampled_from(["3", "a-b", "T,", "S.T", "..", "....", "*", "?T", "T=", "(T)", "1T", "é", "T...", "...T", "......", "...T...", "S...", "T S"]),
                       st.lists(st.sampled_from(list("TS._ 1,-")), min_size=1, max_size=4).map("".join))  # (not st.text(alphabet=...): see gen/dims.py)
     ws = st.lists(st.sampled_from(list(" \t\n")), min_size=1, max_size=2).map("".join)
 
